@@ -112,6 +112,8 @@ M = [
      "            elif result.is_failed() or result.is_canceled():\n                num_failed += 1\n", 1200),
     ("c18_show_status_running_only", "C18", "jade/cli/show_status.py",
      "                if status != HpcJobStatus.NONE:\n", "                if status == HpcJobStatus.RUNNING:\n", 4000),
+    ("c10_no_two_file_precheck", "C10", "jade/jobs/cluster.py",
+     "        self._check_versions(\"update_job_status\")\n", "", 6000),
 ]
 
 
